@@ -1716,4 +1716,117 @@ theorem ccitt_column_roundtrip (w : W) (hI : WInv w) (n0 : Node) (rest : List No
         | succ k => simp only [List.map_cons, List.replicate_succ, zipWithStrs]; rw [ih k s (by simpa using hk)]
     exact hgen _ _ _ (by rw [hcol, hn])
 
+/-! ### compressed IEEE column, reader side -/
+
+/-- the value a compressed IEEE column gives a node (`setv` of `getIeeeCompressed`) -/
+def ieeeSetv (n : Node) (v : Nat) : Node :=
+  let m := mkvalNode n
+  if m.enc.nbits = 64 then { m with val := m.val.setDouble (SF.ofDoubleBits v) }
+  else { m with val := m.val.setFloat (SF.ofFloatBits v) }
+
+/-- **constant IEEE column** (`NBINC = 0`): every subset of the request gets the value written once, and nothing
+is skipped whatever the request — the reader stands right behind the 6 bits of NBINC -/
+theorem getIeeeCompressed_const (r : R) (cb : Node) (col : List Node) (g : Range) (v0 : Nat)
+    (rest : List Bool) (hI : RInv r) (hnb : 1 ≤ cb.enc.nbits ∧ cb.enc.nbits ≤ 64)
+    (hb : r.bits = bitsMSB cb.enc.nbits.toNat v0 ++ bitsMSB 6 0 ++ rest) :
+    ∃ r', getIeeeCompressed r (cb :: col) g =
+        some (r', (cb :: col).map (fun n => ieeeSetv n (v0 % 2^cb.enc.nbits.toNat))) ∧
+      r'.bits = rest ∧ RInv r' := by
+  rw [List.append_assoc] at hb
+  obtain ⟨r1, e1, hb1, hI1⟩ := getbits_view r cb.enc.nbits.toNat v0 _ hI (by omega) (by omega) hb
+  obtain ⟨r2, e2, hb2, hI2⟩ := getbits_view r1 6 0 _ hI1 (by omega) (by omega) hb1
+  refine ⟨r2, ?_, hb2, hI2⟩
+  unfold getIeeeCompressed
+  simp only [e1, e2]
+  have h0 : (0 % 2^6 : Nat) = 0 := by decide
+  rw [h0]
+  simp [ieeeSetv]
+
+/-- **listed IEEE column** (`NBINC > 0`): the values follow in full, one per subset; a request `from..to` gets
+exactly that slice and the reader ends right behind the column -/
+theorem getIeeeCompressed_listed (r : R) (cb : Node) (col : List Node) (g : Range) (v0 k : Nat)
+    (vals : List Nat) (rest : List Bool) (hI : RInv r) (hnb : 1 ≤ cb.enc.nbits ∧ cb.enc.nbits ≤ 64)
+    (hk0 : 0 < k) (hk63 : k < 64) (hg : g.OK) (hlen : vals.length = g.nsub)
+    (hb : r.bits = bitsMSB cb.enc.nbits.toNat v0 ++ bitsMSB 6 k ++ vals.flatMap (bitsMSB cb.enc.nbits.toNat) ++ rest) :
+    ∃ r', getIeeeCompressed r (cb :: col) g =
+        some (r', zipWithNodes ieeeSetv (cb :: col) ((g.slice vals).map (· % 2^cb.enc.nbits.toNat))) ∧
+      r'.bits = rest ∧ RInv r' := by
+  generalize hw : cb.enc.nbits.toNat = w at hb ⊢
+  have hw1 : 0 < w := by omega
+  have hw2 : w ≤ 64 := by omega
+  rw [List.append_assoc, List.append_assoc] at hb
+  obtain ⟨r1, e1, hb1, hI1⟩ := getbits_view r w v0 _ hI hw1 hw2 hb
+  obtain ⟨r2, e2, hb2, hI2⟩ := getbits_view r1 6 k _ hI1 (by omega) (by omega) hb1
+  have hk6 : k % 2^6 = k := Nat.mod_eq_of_lt (by omega)
+  rw [hk6] at e2
+  let a : Nat := if g.from_ > 0 then (g.from_ - 1).toNat else 0
+  let pre := vals.take a
+  let mid := g.slice vals
+  let post := if g.from_ > 0 then (vals.drop a).drop g.count else []
+  have hsplit : vals = pre ++ mid ++ post := by
+    simp only [pre, mid, post, a, Range.slice]
+    by_cases hf : g.from_ > 0
+    · simp only [if_pos hf]
+      rw [List.append_assoc, List.take_append_drop, List.take_append_drop]
+    · simp [if_neg hf]
+  have hprelen : pre.length = a := by
+    simp only [pre, a]
+    rw [List.length_take]
+    rcases hg with h | ⟨h1, h2, h3⟩
+    · rw [if_neg (by omega)]; omega
+    · rw [if_pos (by omega)]; omega
+  have hmidlen : mid.length = g.count := by
+    simp only [mid, Range.slice, Range.count, a]
+    rcases hg with h | ⟨h1, h2, h3⟩
+    · rw [if_neg (by omega), if_neg (by omega)]; exact hlen
+    · rw [if_pos (by omega), if_pos (by omega), List.length_take, List.length_drop]; omega
+  rw [hsplit, List.flatMap_append, List.flatMap_append, List.append_assoc, List.append_assoc] at hb2
+  have hs1 := skipN_view r2 (pre.flatMap (bitsMSB w)) _ hI2 hb2 ((w : Int) * (g.from_ - 1))
+  have hr3 : ∃ r3, (if g.from_ > 1 then skipN r2 ((w : Int) * (g.from_ - 1)) else r2) = r3 ∧
+      r3.bits = mid.flatMap (bitsMSB w) ++ (post.flatMap (bitsMSB w) ++ rest) ∧ RInv r3 := by
+    by_cases hf : g.from_ > 1
+    · rw [if_pos hf]
+      have := hs1 (by
+        rw [flatMap_bitsMSB_length, hprelen]; simp only [a]; rw [if_pos (by omega)]
+        push_cast; rw [Int.toNat_of_nonneg (by omega)])
+      exact ⟨_, rfl, this.1, this.2⟩
+    · rw [if_neg hf]
+      have hpre0 : pre = [] := by
+        apply List.length_eq_zero_iff.mp; rw [hprelen]; simp only [a]; split <;> omega
+      rw [hpre0] at hb2
+      exact ⟨r2, rfl, by simpa using hb2, hI2⟩
+  obtain ⟨r3, e3, hb3, hI3⟩ := hr3
+  obtain ⟨r4, e4, hb4, hI4⟩ := readIncs_view w hw1 hw2 mid r3 _ hI3 hb3
+  rw [hmidlen] at e4
+  have hs2 := skipN_view r4 (post.flatMap (bitsMSB w)) rest hI4 hb4 ((w : Int) * ((g.nsub : Int) - g.to))
+  have hr5 : ∃ r5, (if g.from_ > 0 then skipN r4 ((w : Int) * ((g.nsub : Int) - g.to)) else r4) = r5 ∧
+      r5.bits = rest ∧ RInv r5 := by
+    by_cases hf : g.from_ > 0
+    · rw [if_pos hf]
+      have hpostlen : post.length = (g.nsub - g.to.toNat) := by
+        simp only [post, a]; rw [if_pos hf, if_pos hf, List.length_drop, List.length_drop, hlen]
+        rcases hg with h | ⟨h1, h2, h3⟩
+        · omega
+        · simp only [Range.count]; rw [if_pos hf]; omega
+      have := hs2 (by
+        rw [flatMap_bitsMSB_length, hpostlen]
+        rcases hg with h | ⟨h1, h2, h3⟩
+        · omega
+        · have : ((g.nsub - g.to.toNat : Nat) : Int) = (g.nsub : Int) - g.to := by omega
+          push_cast; rw [this])
+      exact ⟨_, rfl, this.1, this.2⟩
+    · rw [if_neg hf]
+      have : post = [] := by simp only [post]; rw [if_neg hf]
+      rw [this] at hb4
+      exact ⟨r4, rfl, by simpa using hb4, hI4⟩
+  obtain ⟨r5, e5, hb5, hI5⟩ := hr5
+  refine ⟨r5, ?_, hb5, hI5⟩
+  unfold getIeeeCompressed
+  simp only [hw, e1, e2]
+  have hk0' : ¬ (k = 0) := by omega
+  simp only [hk0', if_false]
+  try simp only [e3, e4, e5]
+  simp [mid]
+  rfl
+
 end Bufr
